@@ -192,7 +192,7 @@ theorem execS_assign (fuel : Nat) (n : String) (e : X.Expr) (σ : X.St) (hp : pu
               · rw [hl'] at hv; simp at hv
               · rw [hg'] at hv; simp at hv
         have hloc : ∃ ad, K.loc n = some ad := by
-          apply rep1.locs n
+          suffices h : IsVar K.xc s n by obtain ⟨ad, h1, _⟩ := rep1.locs n h; exact ⟨ad, h1⟩
           unfold IsVar
           rcases writeName_cases K.xc s σ' n w hw with ⟨o, hl', _⟩ | ⟨hl', hg', _⟩
           · exact Or.inl ⟨o, hl'⟩
